@@ -76,7 +76,18 @@ fn isolated(id: &str, tier: Tier, seed: u64) -> i32 {
         1
     };
     match run_child_passthrough(&["checkrun", id, tier_s, &seed_s], timeout, 0, &[("CV_INNER", "1")]) {
-        Passthrough::Exited(101, out) => crash("panicked outside the places where panics are caught (a library call outside parse / check, e.g. while building a parser; the message is in the output above)".into(), &out),
+        Passthrough::Exited(101, out) => {
+            // an uncaught panic: raised inside the library (location under .../repo/src/, e.g. while a parser is being built)
+            // it is a violation; raised inside the harness itself it is a defect of the tool, reported as inconclusive
+            let in_library = out.lines().filter(|l| l.contains("harness panic:")).any(|l| l.rsplit(" @ ").next().map(|loc| loc.contains("repo/src/") || loc.contains("chumsky")).unwrap_or(false));
+            if in_library {
+                crash("panicked inside the library outside the places where panics are caught (e.g. while building a parser; the message is in the output above)".into(), &out)
+            } else {
+                print!("{}", out);
+                println!("INCONCLUSIVE property={} the check's own process panicked in harness code (see the message above): a defect of the tool, not a verdict", id);
+                2
+            }
+        }
         Passthrough::Exited(code, out) => {
             print!("{}", out);
             code
@@ -110,7 +121,7 @@ fn main() {
             // every check runs in a child process (C20 isolates itself): a crash of the process under test -- a signal
             // (memory error, stack overflow, abort) or a panic outside the places where panics are expected and caught
             // (e.g. while a parser is being BUILT) -- is reported as a violation instead of taking the check down
-            if std::env::var("CV_INNER").is_err() && id != "C20" && table(id).is_some() {
+            if std::env::var("CV_INNER").is_err() && table(id).is_some() {
                 std::process::exit(isolated(id, tier, seed));
             }
             let code = match table(id) {
